@@ -905,6 +905,11 @@ func c02NewStateN(c *Ctx, nDep, maxDep int) *c02State {
 		s.users = append(s.users, detKey(fmt.Sprintf("c02-user-%d", i)))
 	}
 	c02AcceptHook = s.sawAccepted
+	c02IgnoredHook = func(b *types.Block) {
+		if !s.con().accepted[b.Hash()] && b.Height() > s.n.BC.StableBlock().Height() {
+			c.Fail("c02/ignored-without-reason", fmt.Sprintf("block %s, which the harness never saw accepted and which lies above the stable height %d, was ignored", b.ShortString(), s.n.BC.StableBlock().Height()), nil)
+		}
+	}
 	return s
 }
 
